@@ -159,10 +159,21 @@ func (s *Stream) ReadFrom(r io.Reader) (n int64, err error) {
 				rder.SetReadDeadline(time.Now().Add(s.readFromTimeout))
 			}
 		}
+		readLen := s.session.maxStreamUnitWrite
+		if _, isPacketConn := r.(net.PacketConn); isPacketConn && s.session.Unordered {
+			// a packet source hands over one datagram per Read and drops what does not fit the buffer: the
+			// spare byte tells a datagram that is too large for one frame from one that just fits
+			readLen++
+		}
 		buf := s.session.streamObfsBufPool.Get().(*[]byte)
-		read, er := r.Read((*buf)[frameHeaderLength : frameHeaderLength+s.session.maxStreamUnitWrite])
+		read, er := r.Read((*buf)[frameHeaderLength : frameHeaderLength+readLen])
 		if er != nil {
 			return n, er
+		}
+		if read > s.session.maxStreamUnitWrite {
+			// like Write, refuse a datagram that cannot be sent as one frame instead of sending a part of it
+			s.session.streamObfsBufPool.Put(buf)
+			return n, io.ErrShortBuffer
 		}
 
 		// the above read may have been unblocked by another goroutine calling stream.Close(), so we need
